@@ -613,6 +613,9 @@ func main() {
 		qz(lbp.c["SexpArray"]), qz(lbp.c["SexpComma"]), qz(lbp.c["SexpSemicolon"]), qz(lbp.c["SexpComment"]),
 		qz(lbp.c["SexpPair"]), qz(lbp.c["SexpHash"]), qz(lbp.dot), qz(lbp.symDefault),
 		strings.Join(zs, "; "), qz(lbp.zeroVal), qz(lbp.noLed), qs(keys.comma), qs(keys.dot), qz(arrayBp), arrayLed)
+	fc := analyseFor(need("lowerGoFor"), need("lowerRangeFor"))
+	fmt.Fprintf(&b, "\n(* lowerGoFor / lowerRangeFor: semicolons of a three-clause header; guard `len(header) %s assignPos+%d`\n   in front of header[assignPos+%d]; sourceTokens := header[assignPos+%d:] *)\n", fc.guardOp, fc.guardOff, fc.indexOff, fc.sourceOff)
+	fmt.Fprintf(&b, "Definition for_consts : forconsts := mkFor %d %v %d %d %d.\n", fc.nsemi, fc.guardOp == "<=", fc.guardOff, fc.indexOff, fc.sourceOff)
 	if err := os.WriteFile(*out, []byte(b.String()), 0644); err != nil {
 		die(token.NoPos, "write: %v", err)
 	}
@@ -843,4 +846,84 @@ func lit1(s string, pos token.Pos) string {
 	s = s[i+len("env.infixOps[\""):]
 	j := strings.Index(s, "\"")
 	return s[:j]
+}
+
+type forInfo struct {
+	nsemi, guardOff, indexOff, sourceOff int
+	guardOp                              string
+}
+
+// assignPos+N  ->  N
+func plusOff(e ast.Expr, base string) (int, bool) {
+	be, ok := e.(*ast.BinaryExpr)
+	if !ok || be.Op != token.ADD || src(be.X) != base {
+		return 0, false
+	}
+	return intLit(be.Y)
+}
+
+func analyseFor(goFor, rangeFor *ast.FuncDecl) forInfo {
+	fi := forInfo{nsemi: -1, guardOff: -1, indexOff: -1, sourceOff: -1}
+	ast.Inspect(goFor.Body, func(n ast.Node) bool {
+		if is, ok := n.(*ast.IfStmt); ok {
+			if be, ok := is.Cond.(*ast.BinaryExpr); ok && be.Op == token.NEQ && src(be.X) == "nsemi" {
+				if k, ok := intLit(be.Y); ok {
+					fi.nsemi = k
+				}
+			}
+		}
+		return true
+	})
+	ast.Inspect(rangeFor.Body, func(n ast.Node) bool {
+		switch x := n.(type) {
+		case *ast.IfStmt:
+			be, ok := x.Cond.(*ast.BinaryExpr)
+			if !ok || be.Op != token.LOR {
+				return true
+			}
+			l, ok := be.X.(*ast.BinaryExpr)
+			if !ok || src(l.X) != "len(header)" {
+				return true
+			}
+			off, ok := plusOff(l.Y, "assignPos")
+			if !ok || (l.Op != token.LEQ && l.Op != token.LSS) {
+				die(x.Pos(), "lowerRangeFor: guard `%s` has an unknown shape", src(l))
+			}
+			fi.guardOp, fi.guardOff = l.Op.String(), off
+			ue, ok := be.Y.(*ast.UnaryExpr)
+			if !ok || ue.Op != token.NOT {
+				die(x.Pos(), "lowerRangeFor: second half of the guard has an unknown shape: %s", src(be.Y))
+			}
+			ce, ok := ue.X.(*ast.CallExpr)
+			if !ok || src(ce.Fun) != "isSymbolNamed" || len(ce.Args) != 2 || src(ce.Args[1]) != "\"range\"" {
+				die(x.Pos(), "lowerRangeFor: second half of the guard has an unknown shape: %s", src(be.Y))
+			}
+			ie, ok := ce.Args[0].(*ast.IndexExpr)
+			if !ok || src(ie.X) != "header" {
+				die(x.Pos(), "lowerRangeFor: indexed expression has an unknown shape: %s", src(ce.Args[0]))
+			}
+			io, ok := plusOff(ie.Index, "assignPos")
+			if !ok {
+				die(x.Pos(), "lowerRangeFor: index has an unknown shape: %s", src(ie.Index))
+			}
+			fi.indexOff = io
+		case *ast.AssignStmt:
+			if len(x.Lhs) == 1 && src(x.Lhs[0]) == "sourceTokens" {
+				se, ok := x.Rhs[0].(*ast.SliceExpr)
+				if !ok || src(se.X) != "header" || se.High != nil {
+					die(x.Pos(), "lowerRangeFor: sourceTokens has an unknown shape: %s", src(x.Rhs[0]))
+				}
+				so, ok := plusOff(se.Low, "assignPos")
+				if !ok {
+					die(x.Pos(), "lowerRangeFor: slice bound has an unknown shape: %s", src(se.Low))
+				}
+				fi.sourceOff = so
+			}
+		}
+		return true
+	})
+	if fi.nsemi < 0 || fi.guardOff < 0 || fi.indexOff < 0 || fi.sourceOff < 0 {
+		die(rangeFor.Pos(), "lowerGoFor/lowerRangeFor: guard, index, slice or semicolon count not found (%+v)", fi)
+	}
+	return fi
 }
